@@ -308,7 +308,20 @@ func putWritesFieldIn(f *ssa.Function, field string) bool {
 
 func ruleR12_5(r *Run) {
 	w := r.W
-	lm := w.method("datastore", "repoManager", "loadMetadata")
+	// the corrections may sit in a helper of the loader (m.correctNewIDs(), d.loadMaxRepoLabel(...)): the function of
+	// the loader's helper set that stores into the counter is the one the rule reads
+	pick := func(top *ssa.Function, typ, field string) *ssa.Function {
+		if top == nil {
+			return nil
+		}
+		for _, g := range withHelpers(top) {
+			if len(fieldStores(g, typ, field)) > 0 {
+				return g
+			}
+		}
+		return top
+	}
+	lm := pick(w.method("datastore", "repoManager", "loadMetadata"), "repoManager", "versionID")
 	if lm == nil {
 		r.violation("repoManager.loadMetadata", "not found", "-")
 	} else {
@@ -359,7 +372,7 @@ func ruleR12_5(r *Run) {
 	if lm != nil {
 		checkCorrectionsOnlyRaise(r, lm, []string{"instanceID", "versionID", "repoID"}, 2)
 	}
-	ll := w.method("datatype/labelmap", "Data", "loadLabelIDs")
+	ll := pick(w.method("datatype/labelmap", "Data", "loadLabelIDs"), "Data", "MaxRepoLabel")
 	if ll == nil {
 		r.violation("labelmap.loadLabelIDs", "not found", "-")
 		return
@@ -368,7 +381,9 @@ func ruleR12_5(r *Run) {
 	// guarded by MaxRepoLabel < max
 	okMax := false
 	for _, st := range fieldStores(ll, "Data", "MaxRepoLabel") {
-		if _, isPhi := st.Val.(*ssa.Phi); isPhi {
+		_, isPhi := st.Val.(*ssa.Phi)
+		_, isPrm := st.Val.(*ssa.Parameter) // the running maximum handed to a helper of the loader
+		if isPhi || isPrm {
 			// guarded by a comparison of the loaded MaxRepoLabel with the same value
 			for _, ft := range factsOf(ll) {
 				if guardedByEdge(ft.ifi, ft.succ, st) {
